@@ -372,3 +372,7 @@ def run(ctx):
     rule_setters_verbatim(ctx)
     rule_fresh_writer(ctx)
     rule_fresh_locals(ctx)
+    # what a failed request leaves behind is not only in the writer's fields: threads it left ptrace-attached make every later request of this
+    # tracer find nothing to attach to.  Every exit of a request releases the target (same rule instance as C03/drop-resumes)
+    from rules import c03 as _c03d
+    _c03d.rule_drop_resumes(ctx, R="C19/failed-request-releases-target")
